@@ -214,6 +214,11 @@ def c02_3(ctx):
     fn = ctx.repo.func(ENGINE)
     g = ctx.cfg(fn)
     l1 = first_pass_loop(ctx, fn)
+    if not calls_to(ctx, fn, {LWB + '.generate_bytes'}):
+        ctx.refute('phase:every-byte-line-generated', fn.site(), 'bytes are generated for every byte-producing line of the list (muted or not): that is where labels are '
+                   'resolved and values checked', 'assemble_bytecode never calls generate_bytes: a line whose bytes nobody asks for (muted, zero-sized, or any line when no '
+                   'image and no listing is wanted) is never checked, and the run reports success')
+        return
     l2 = second_pass_loop(ctx, fn)
     lwb = ctx.repo.cls(LWB)
     gen_keys = {CallGraph.key(f) for f in lwb.implementations('generate_bytes')}
@@ -577,7 +582,13 @@ def c02_label_names(ctx):
     c06_3(ctx)
 
 
-RULES = [c02_predefined, c02_1, c02_2, c02_3, c02_4, c02_5, c02_6, c02_macro_sizes, c02_zone_of_line, c02_state, c02_file_state, c02_label_names]
+def c02_zone_cursor(ctx):
+    """A line is placed at its zone's cursor and the cursor is moved to the line's end: the cursor accessors hand the value through unchanged (C05.1)."""
+    from rules.c05 import c05_1
+    c05_1(ctx)
+
+
+RULES = [c02_predefined, c02_1, c02_2, c02_3, c02_4, c02_5, c02_6, c02_macro_sizes, c02_zone_of_line, c02_state, c02_file_state, c02_label_names, c02_zone_cursor]
 
 _E = 'assembler/engine.py'
 _FD = 'assembler/line_object/directive_line/fill_data.py'
